@@ -114,7 +114,7 @@ func (p *c11) Bounds(tier string) map[string]interface{} {
 }
 
 var c11Places = []string{"leaf", "container", "list", "leaf-list", "choice", "case", "uses", "augment", "uses-augment", "refine", "two-if-features", "anydata", "rpc", "notification",
-	"case-in-augment", "leaf-in-augment-of-choice", "case-in-uses-augment", "case-in-grouping", "leaf-in-grouping", "action", "action-in-grouping", "notification-in-grouping", "leaf-in-submodule", "augment-in-submodule", "features-in-submodule", "both-in-submodule", "uses-in-augment", "uses-in-case", "choice-in-case", "action-in-augment", "notification-in-augment", "action-in-uses-augment", "notification-in-uses-augment", "action-in-submodule", "leaf-in-rpc-input", "leaf-in-notification", "leaf-in-action-output", "first-of-three-in-uses-augment", "first-of-three-in-augment", "first-of-three-in-grouping", "first-of-three-in-case", "refine-with-the-guard-of-its-target", "refine-of-guarded-node", "refine-below-guarded-node", "refine-of-guarded-node-of-inner-uses", "refine-of-guarded-case", "refine-container", "refine-case", "refine-leaf-in-case", "refine-one-of-two-uses", "leaf-in-case-found-by-name", "leaf-in-nested-case-found-by-name", "container-in-case-found-by-name"}
+	"case-in-augment", "leaf-in-augment-of-choice", "case-in-uses-augment", "case-in-grouping", "leaf-in-grouping", "action", "action-in-grouping", "notification-in-grouping", "leaf-in-submodule", "augment-in-submodule", "features-in-submodule", "both-in-submodule", "uses-in-augment", "uses-in-case", "choice-in-case", "action-in-augment", "notification-in-augment", "action-in-uses-augment", "notification-in-uses-augment", "action-in-submodule", "leaf-in-rpc-input", "leaf-in-notification", "leaf-in-action-output", "first-of-three-in-uses-augment", "first-of-three-in-augment", "first-of-three-in-grouping", "first-of-three-in-case", "refine-with-the-guard-of-its-target", "augment-of-guarded-target", "augment-below-guarded-target", "augment-of-guarded-choice", "augment-of-guarded-case", "augment-of-guarded-rpc-input", "augment-of-guarded-notification", "uses-augment-of-guarded-target", "deviation-of-guarded-target", "not-supported-of-node-below-guarded-target", "refine-of-guarded-node", "refine-below-guarded-node", "refine-of-guarded-node-of-inner-uses", "refine-of-guarded-case", "refine-container", "refine-case", "refine-leaf-in-case", "refine-one-of-two-uses", "leaf-in-case-found-by-name", "leaf-in-nested-case-found-by-name", "container-in-case-found-by-name"}
 
 func (p *c11) Cases(tier string, emit func(interface{})) {
 	L := c11L(tier)
@@ -384,59 +384,68 @@ func c11Render(tp c11Template, stmt string) (string, map[string]string) {
 }
 
 var c11Templates = map[string]c11Template{
-	"leaf":                                 {text: `leaf x { %s type string; } leaf keep { type string; } }`, probe: "x"},
-	"container":                            {text: `container x { %s leaf y { type string; } } leaf keep { type string; } }`, probe: "x"},
-	"list":                                 {text: `list x { %s key k; leaf k { type string; } } leaf keep { type string; } }`, probe: "x"},
-	"leaf-list":                            {text: `leaf-list x { %s type string; } leaf keep { type string; } }`, probe: "x"},
-	"choice":                               {text: `choice x { %s case k { leaf y { type string; } } } leaf keep { type string; } }`, probe: "x"},
-	"case":                                 {text: `choice ch { case x { %s leaf y { type string; } } case k { leaf z { type string; } } } leaf keep { type string; } }`, probe: "ch/x"},
-	"uses":                                 {text: `grouping g { leaf x { type string; } } container u { uses g { %s } leaf keep { type string; } } }`, probe: "u/x"},
-	"augment":                              {text: `container u { leaf keep { type string; } } augment "/u" { %s leaf x { type string; } } }`, probe: "u/x"},
-	"uses-augment":                         {text: `grouping g { container gc { leaf keep { type string; } } } container u { uses g { augment gc { %s leaf x { type string; } } } } }`, probe: "u/gc/x"},
-	"refine":                               {text: `grouping g { leaf x { type string; } leaf keep { type string; } } container u { uses g { refine x { %s description "refined"; } refine keep { description "also"; } } } }`, probe: "refine"},
-	"two-if-features":                      {text: `leaf x { %s type string; } leaf keep { type string; } }`, probe: "x"},
-	"anydata":                              {text: `anydata x { %s } leaf keep { type string; } }`, probe: "x"},
-	"rpc":                                  {text: `rpc x { %s } leaf keep { type string; } }`, probe: "x"},
-	"notification":                         {text: `notification x { %s } leaf keep { type string; } }`, probe: "x"},
-	"case-in-augment":                      {text: `choice ch { case k { leaf z { type string; } } } leaf keep { type string; } augment "/ch" { case x { %s leaf y { type string; } } } }`, probe: "ch/x"},
-	"leaf-in-augment-of-choice":            {text: `choice ch { case k { leaf z { type string; } } } leaf keep { type string; } augment "/ch" { leaf x { %s type string; } } }`, probe: "ch/x"},
-	"case-in-uses-augment":                 {text: `grouping g { choice ch { case k { leaf z { type string; } } } } container u { uses g { augment ch { case x { %s leaf y { type string; } } } } leaf keep { type string; } } }`, probe: "u/ch/x"},
-	"case-in-grouping":                     {text: `grouping g { choice ch { case x { %s leaf y { type string; } } case k { leaf z { type string; } } } } container u { uses g; leaf keep { type string; } } }`, probe: "u/ch/x"},
-	"leaf-in-grouping":                     {text: `grouping g { container gc { leaf x { %s type string; } leaf keep { type string; } } } container u { uses g; } }`, probe: "u/gc/x"},
-	"action":                               {text: `container u { action x { %s } leaf keep { type string; } } }`, probe: "u/x"},
-	"action-in-grouping":                   {text: `grouping g { action x { %s } leaf keep { type string; } } container u { uses g; } }`, probe: "u/x"},
-	"notification-in-grouping":             {text: `grouping g { notification x { %s } leaf keep { type string; } } container u { uses g; } }`, probe: "u/x"},
-	"leaf-in-submodule":                    {text: `leaf keep { type string; } }`, probe: "x", sub: `leaf x { %s type string; } `},
-	"augment-in-submodule":                 {text: `container u { leaf keep { type string; } } }`, probe: "u/x", sub: `augment "/u" { %s leaf x { type string; } } `},
-	"features-in-submodule":                {text: `leaf x { %s type string; } leaf keep { type string; } }`, probe: "x", sub: `leaf subkeep { type string; } `, subFeatures: true},
-	"both-in-submodule":                    {text: `leaf keep { type string; } }`, probe: "x", sub: `leaf x { %s type string; } `, subFeatures: true},
-	"action-in-augment":                    {text: `container u { leaf keep { type string; } } augment "/u" { action x { %s } } }`, probe: "u/x"},
-	"notification-in-augment":              {text: `container u { leaf keep { type string; } } augment "/u" { notification x { %s } } }`, probe: "u/x"},
-	"action-in-uses-augment":               {text: `grouping g { container gc { leaf keep { type string; } } } container u { uses g { augment gc { action x { %s } } } } }`, probe: "u/gc/x"},
-	"notification-in-uses-augment":         {text: `grouping g { container gc { leaf keep { type string; } } } container u { uses g { augment gc { notification x { %s } } } } }`, probe: "u/gc/x"},
-	"action-in-submodule":                  {text: `leaf keep { type string; } }`, probe: "x", sub: `rpc x { %s } `},
-	"leaf-in-rpc-input":                    {text: `rpc r { input { leaf x { %s type string; } leaf keep { type string; } } } }`, probe: "r/input/x"},
-	"leaf-in-action-output":                {text: `container u { action r { output { leaf x { %s type string; } leaf keep { type string; } } } } }`, probe: "u/r/output/x"},
-	"leaf-in-notification":                 {text: `notification n { leaf x { %s type string; } leaf keep { type string; } } }`, probe: "n/x"},
-	"first-of-three-in-uses-augment":       {text: `grouping g { container gc { leaf keep { type string; } } } container u { uses g { augment gc { leaf x { %s type string; } leaf after { type string; } action act { input { leaf i { type string; } } } notification note { leaf e { type string; } } } } } }`, probe: "u/gc/x"},
-	"first-of-three-in-augment":            {text: `container u { leaf keep { type string; } } augment "/u" { leaf x { %s type string; } leaf after { type string; } action act { input { leaf i { type string; } } } notification note { leaf e { type string; } } } }`, probe: "u/x"},
-	"first-of-three-in-grouping":           {text: `grouping g { leaf x { %s type string; } leaf after { type string; } leaf keep { type string; } action act { input { leaf i { type string; } } } } container u { uses g; } }`, probe: "u/x"},
-	"first-of-three-in-case":               {text: `container u { choice ch { case k { leaf x { %s type string; } leaf after { type string; } leaf keep { type string; } } } } }`, probe: "u/x"},
-	"refine-container":                     {text: `grouping g { container x { leaf y { type string; } } leaf keep { type string; } } container u { uses g { refine x { %s description "refined"; } refine x/y { description "deeper"; } } } container v { uses g; } }`, probe: "u/x"},
-	"refine-case":                          {text: `grouping g { choice ch { case x { leaf y { type string; } } case keep { leaf z { type string; } } } } container u { uses g { refine ch/x { %s description "refined"; } } } }`, probe: "u/ch/x"},
-	"refine-leaf-in-case":                  {text: `grouping g { choice ch { case k { leaf x { type string; } leaf keep { type string; } } } } container u { uses g { refine ch/k/x { %s description "refined"; } } } }`, probe: "u/ch/k/x"},
-	"refine-one-of-two-uses":               {text: `grouping g { leaf x { type string; } leaf keep { type string; } } container u { uses g { refine x { %s description "refined"; } } } container after { uses g; } }`, probe: "u/x"},
-	"refine-of-guarded-node":               {text: `grouping g { leaf x { %s type string; } leaf keep { type string; } } container u { uses g { refine x { description "refined"; } refine keep { description "also"; } } } }`, probe: "u/x"},
-	"refine-below-guarded-node":            {text: `grouping g { container x { %s leaf y { type string; } } leaf keep { type string; } } container u { uses g { refine x/y { description "refined"; } } } }`, probe: "u/x"},
-	"refine-of-guarded-node-of-inner-uses": {text: `grouping in { leaf x { %s type string; } } grouping g { uses in; leaf keep { type string; } } container u { uses g { refine x { description "refined"; } } } }`, probe: "u/x"},
-	"refine-of-guarded-case":               {text: `grouping g { choice ch { case x { %s leaf y { type string; } } case keep { leaf z { type string; } } } } container u { uses g { refine ch/x/y { description "refined"; } } } }`, probe: "u/ch/x"},
-	"refine-with-the-guard-of-its-target":  {text: `grouping g { leaf x { %s type string; } leaf keep { type string; } } container u { uses g { refine x { %s description "refined"; } } } }`, probe: "u/x"},
-	"leaf-in-case-found-by-name":           {text: `container u { choice ch { case k { leaf x { %s type string; } leaf keep { type string; } } } } }`, probe: "u/x"},
-	"leaf-in-nested-case-found-by-name":    {text: `container u { choice ch { case k { choice in { case j { leaf x { %s type string; } } } leaf keep { type string; } } } } }`, probe: "u/x"},
-	"container-in-case-found-by-name":      {text: `container u { choice ch { case k { container x { %s leaf y { type string; } } leaf keep { type string; } } } } }`, probe: "u/x"},
-	"uses-in-augment":                      {text: `grouping g { leaf x { type string; } } container u { leaf keep { type string; } } augment "/u" { uses g { %s } } }`, probe: "u/x"},
-	"uses-in-case":                         {text: `grouping g { leaf x { type string; } } choice ch { case k { uses g { %s } leaf keep { type string; } } } }`, probe: "ch/k/x"},
-	"choice-in-case":                       {text: `choice ch { case k { choice x { %s leaf y { type string; } } leaf keep { type string; } } } }`, probe: "ch/k/x"},
+	"leaf":                                       {text: `leaf x { %s type string; } leaf keep { type string; } }`, probe: "x"},
+	"container":                                  {text: `container x { %s leaf y { type string; } } leaf keep { type string; } }`, probe: "x"},
+	"list":                                       {text: `list x { %s key k; leaf k { type string; } } leaf keep { type string; } }`, probe: "x"},
+	"leaf-list":                                  {text: `leaf-list x { %s type string; } leaf keep { type string; } }`, probe: "x"},
+	"choice":                                     {text: `choice x { %s case k { leaf y { type string; } } } leaf keep { type string; } }`, probe: "x"},
+	"case":                                       {text: `choice ch { case x { %s leaf y { type string; } } case k { leaf z { type string; } } } leaf keep { type string; } }`, probe: "ch/x"},
+	"uses":                                       {text: `grouping g { leaf x { type string; } } container u { uses g { %s } leaf keep { type string; } } }`, probe: "u/x"},
+	"augment":                                    {text: `container u { leaf keep { type string; } } augment "/u" { %s leaf x { type string; } } }`, probe: "u/x"},
+	"uses-augment":                               {text: `grouping g { container gc { leaf keep { type string; } } } container u { uses g { augment gc { %s leaf x { type string; } } } } }`, probe: "u/gc/x"},
+	"refine":                                     {text: `grouping g { leaf x { type string; } leaf keep { type string; } } container u { uses g { refine x { %s description "refined"; } refine keep { description "also"; } } } }`, probe: "refine"},
+	"two-if-features":                            {text: `leaf x { %s type string; } leaf keep { type string; } }`, probe: "x"},
+	"anydata":                                    {text: `anydata x { %s } leaf keep { type string; } }`, probe: "x"},
+	"rpc":                                        {text: `rpc x { %s } leaf keep { type string; } }`, probe: "x"},
+	"notification":                               {text: `notification x { %s } leaf keep { type string; } }`, probe: "x"},
+	"case-in-augment":                            {text: `choice ch { case k { leaf z { type string; } } } leaf keep { type string; } augment "/ch" { case x { %s leaf y { type string; } } } }`, probe: "ch/x"},
+	"leaf-in-augment-of-choice":                  {text: `choice ch { case k { leaf z { type string; } } } leaf keep { type string; } augment "/ch" { leaf x { %s type string; } } }`, probe: "ch/x"},
+	"case-in-uses-augment":                       {text: `grouping g { choice ch { case k { leaf z { type string; } } } } container u { uses g { augment ch { case x { %s leaf y { type string; } } } } leaf keep { type string; } } }`, probe: "u/ch/x"},
+	"case-in-grouping":                           {text: `grouping g { choice ch { case x { %s leaf y { type string; } } case k { leaf z { type string; } } } } container u { uses g; leaf keep { type string; } } }`, probe: "u/ch/x"},
+	"leaf-in-grouping":                           {text: `grouping g { container gc { leaf x { %s type string; } leaf keep { type string; } } } container u { uses g; } }`, probe: "u/gc/x"},
+	"action":                                     {text: `container u { action x { %s } leaf keep { type string; } } }`, probe: "u/x"},
+	"action-in-grouping":                         {text: `grouping g { action x { %s } leaf keep { type string; } } container u { uses g; } }`, probe: "u/x"},
+	"notification-in-grouping":                   {text: `grouping g { notification x { %s } leaf keep { type string; } } container u { uses g; } }`, probe: "u/x"},
+	"leaf-in-submodule":                          {text: `leaf keep { type string; } }`, probe: "x", sub: `leaf x { %s type string; } `},
+	"augment-in-submodule":                       {text: `container u { leaf keep { type string; } } }`, probe: "u/x", sub: `augment "/u" { %s leaf x { type string; } } `},
+	"features-in-submodule":                      {text: `leaf x { %s type string; } leaf keep { type string; } }`, probe: "x", sub: `leaf subkeep { type string; } `, subFeatures: true},
+	"both-in-submodule":                          {text: `leaf keep { type string; } }`, probe: "x", sub: `leaf x { %s type string; } `, subFeatures: true},
+	"action-in-augment":                          {text: `container u { leaf keep { type string; } } augment "/u" { action x { %s } } }`, probe: "u/x"},
+	"notification-in-augment":                    {text: `container u { leaf keep { type string; } } augment "/u" { notification x { %s } } }`, probe: "u/x"},
+	"action-in-uses-augment":                     {text: `grouping g { container gc { leaf keep { type string; } } } container u { uses g { augment gc { action x { %s } } } } }`, probe: "u/gc/x"},
+	"notification-in-uses-augment":               {text: `grouping g { container gc { leaf keep { type string; } } } container u { uses g { augment gc { notification x { %s } } } } }`, probe: "u/gc/x"},
+	"action-in-submodule":                        {text: `leaf keep { type string; } }`, probe: "x", sub: `rpc x { %s } `},
+	"leaf-in-rpc-input":                          {text: `rpc r { input { leaf x { %s type string; } leaf keep { type string; } } } }`, probe: "r/input/x"},
+	"leaf-in-action-output":                      {text: `container u { action r { output { leaf x { %s type string; } leaf keep { type string; } } } } }`, probe: "u/r/output/x"},
+	"leaf-in-notification":                       {text: `notification n { leaf x { %s type string; } leaf keep { type string; } } }`, probe: "n/x"},
+	"first-of-three-in-uses-augment":             {text: `grouping g { container gc { leaf keep { type string; } } } container u { uses g { augment gc { leaf x { %s type string; } leaf after { type string; } action act { input { leaf i { type string; } } } notification note { leaf e { type string; } } } } } }`, probe: "u/gc/x"},
+	"first-of-three-in-augment":                  {text: `container u { leaf keep { type string; } } augment "/u" { leaf x { %s type string; } leaf after { type string; } action act { input { leaf i { type string; } } } notification note { leaf e { type string; } } } }`, probe: "u/x"},
+	"first-of-three-in-grouping":                 {text: `grouping g { leaf x { %s type string; } leaf after { type string; } leaf keep { type string; } action act { input { leaf i { type string; } } } } container u { uses g; } }`, probe: "u/x"},
+	"first-of-three-in-case":                     {text: `container u { choice ch { case k { leaf x { %s type string; } leaf after { type string; } leaf keep { type string; } } } } }`, probe: "u/x"},
+	"refine-container":                           {text: `grouping g { container x { leaf y { type string; } } leaf keep { type string; } } container u { uses g { refine x { %s description "refined"; } refine x/y { description "deeper"; } } } container v { uses g; } }`, probe: "u/x"},
+	"refine-case":                                {text: `grouping g { choice ch { case x { leaf y { type string; } } case keep { leaf z { type string; } } } } container u { uses g { refine ch/x { %s description "refined"; } } } }`, probe: "u/ch/x"},
+	"refine-leaf-in-case":                        {text: `grouping g { choice ch { case k { leaf x { type string; } leaf keep { type string; } } } } container u { uses g { refine ch/k/x { %s description "refined"; } } } }`, probe: "u/ch/k/x"},
+	"refine-one-of-two-uses":                     {text: `grouping g { leaf x { type string; } leaf keep { type string; } } container u { uses g { refine x { %s description "refined"; } } } container after { uses g; } }`, probe: "u/x"},
+	"refine-of-guarded-node":                     {text: `grouping g { leaf x { %s type string; } leaf keep { type string; } } container u { uses g { refine x { description "refined"; } refine keep { description "also"; } } } }`, probe: "u/x"},
+	"refine-below-guarded-node":                  {text: `grouping g { container x { %s leaf y { type string; } } leaf keep { type string; } } container u { uses g { refine x/y { description "refined"; } } } }`, probe: "u/x"},
+	"refine-of-guarded-node-of-inner-uses":       {text: `grouping in { leaf x { %s type string; } } grouping g { uses in; leaf keep { type string; } } container u { uses g { refine x { description "refined"; } } } }`, probe: "u/x"},
+	"refine-of-guarded-case":                     {text: `grouping g { choice ch { case x { %s leaf y { type string; } } case keep { leaf z { type string; } } } } container u { uses g { refine ch/x/y { description "refined"; } } } }`, probe: "u/ch/x"},
+	"augment-of-guarded-target":                  {text: `container x { %s leaf y { type string; } } leaf keep { type string; } augment "/x" { leaf added { type string; } } }`, probe: "x"},
+	"augment-below-guarded-target":               {text: `container x { %s container in { } } leaf keep { type string; } augment "/x/in" { leaf added { type string; } } }`, probe: "x"},
+	"augment-of-guarded-choice":                  {text: `container u { choice x { %s leaf y { type string; } } leaf keep { type string; } } augment "/u/x" { case added { leaf z { type string; } } } }`, probe: "u/x"},
+	"augment-of-guarded-case":                    {text: `container u { choice ch { case x { %s leaf y { type string; } } case keep { leaf z { type string; } } } } augment "/u/ch/x" { leaf added { type string; } } }`, probe: "u/ch/x"},
+	"augment-of-guarded-rpc-input":               {text: `rpc x { %s input { leaf i { type string; } } } leaf keep { type string; } augment "/x/input" { leaf added { type string; } } }`, probe: "x"},
+	"augment-of-guarded-notification":            {text: `notification x { %s leaf i { type string; } } leaf keep { type string; } augment "/x" { leaf added { type string; } } }`, probe: "x"},
+	"uses-augment-of-guarded-target":             {text: `grouping g { container x { %s leaf y { type string; } } leaf keep { type string; } } container u { uses g { augment "x" { leaf added { type string; } } } } }`, probe: "u/x"},
+	"deviation-of-guarded-target":                {text: `container x { %s leaf y { type string; } } leaf keep { type string; } deviation "/x/y" { deviate add { units "u"; } } }`, probe: "x"},
+	"not-supported-of-node-below-guarded-target": {text: `container x { %s leaf y { type string; } leaf z { type string; } } leaf keep { type string; } deviation "/x/y" { deviate not-supported; } }`, probe: "x"},
+	"refine-with-the-guard-of-its-target":        {text: `grouping g { leaf x { %s type string; } leaf keep { type string; } } container u { uses g { refine x { %s description "refined"; } } } }`, probe: "u/x"},
+	"leaf-in-case-found-by-name":                 {text: `container u { choice ch { case k { leaf x { %s type string; } leaf keep { type string; } } } } }`, probe: "u/x"},
+	"leaf-in-nested-case-found-by-name":          {text: `container u { choice ch { case k { choice in { case j { leaf x { %s type string; } } } leaf keep { type string; } } } } }`, probe: "u/x"},
+	"container-in-case-found-by-name":            {text: `container u { choice ch { case k { container x { %s leaf y { type string; } } leaf keep { type string; } } } } }`, probe: "u/x"},
+	"uses-in-augment":                            {text: `grouping g { leaf x { type string; } } container u { leaf keep { type string; } } augment "/u" { uses g { %s } } }`, probe: "u/x"},
+	"uses-in-case":                               {text: `grouping g { leaf x { type string; } } choice ch { case k { uses g { %s } leaf keep { type string; } } } }`, probe: "ch/k/x"},
+	"choice-in-case":                             {text: `choice ch { case k { choice x { %s leaf y { type string; } } leaf keep { type string; } } } }`, probe: "ch/k/x"},
 }
 
 func c11Probe(m *meta.Module, place string) (present bool, extra string) {
